@@ -205,6 +205,7 @@ type phasesCase struct {
 	ext    *extTables
 	steps  []any // driver steps
 	after  []any // implementation state after each step
+	next   []string // name of the phase the implementation ran after each step ("" = none)
 	names  []string
 	out    any
 	rounds int
@@ -298,7 +299,25 @@ func phasesDecide(cases []*Case) ([]Finding, map[string]int) {
 			pc.steps = append(pc.steps, M{"name": name, "doc": get(phs[i-1], "doc"), "ctx": get(phs[i-1], "ctx")})
 			pc.after = append(pc.after, phs[i])
 			pc.names = append(pc.names, name)
+			nx := ""
+			if i+1 < len(phs) {
+				nx, _ = get(phs[i+1], "name").(string)
+			}
+			pc.next = append(pc.next, nx)
 			_ = o
+		}
+		// the whole pipeline after `expand` (Flatten.flattenLocal), for runs that completed
+		if get(r, "flattenErr") == nil && get(r, "panic") == nil {
+			for i, ph := range phs {
+				if nm, _ := get(ph, "name").(string); nm == "expand" && get(ph, "doc") != nil && get(phs[len(phs)-1], "doc") != nil {
+					if ok, _ := get(ph, "inSync").(bool); ok && i < len(phs)-1 {
+						pc.steps = append(pc.steps, M{"name": "pipeline", "doc": get(ph, "doc"), "ctx": get(ph, "ctx")})
+						pc.after = append(pc.after, phs[len(phs)-1])
+						pc.names = append(pc.names, "pipeline")
+						pc.next = append(pc.next, "")
+					}
+				}
+			}
 		}
 		if len(pc.steps) > 0 {
 			pcs = append(pcs, pc)
@@ -353,6 +372,13 @@ func phasesDecide(cases []*Case) ([]Finding, map[string]int) {
 				break
 			}
 			name := pc.names[i]
+			if name == "pipeline" {
+				if e, _ := get(outs[i], "err").(string); strings.HasPrefix(e, "not modelled") {
+					stats["pipeline:not-modelled-remote-refs"]++
+					continue
+				}
+				stats["pipeline:compared"]++
+			}
 			stats["steps:compared"]++
 			before := get(pc.steps[i], "doc")
 			implDoc := get(pc.after[i], "doc")
@@ -378,6 +404,16 @@ func phasesDecide(cases []*Case) ([]Finding, map[string]int) {
 			agreed := false
 			for _, alt := range alts {
 				f := comparePhase(name, alt, implDoc, get(pc.after[i], "ctx", "newRefs"), mk)
+				if f == nil && name == "stripOAIGen" && get(c2err(pc.c), "flattenErr") == nil {
+					// the flag stripOAIGen returns decides whether the loop of stripPointersAndOAIGen goes round again
+					if again, ok := get(alt, "ok", "again").(bool); ok {
+						implAgain := pc.next[i] == "nameInlinedSchemas" || pc.next[i] == "namePointers"
+						if again != implAgain {
+							ff := mk("correspondence", fmt.Sprintf("phase stripOAIGen: the model says the pointer/naming loop must go round again = %v, the implementation went on with %q", again, pc.next[i]), "loop-flag-differs")
+							f = &ff
+						}
+					}
+				}
 				if f == nil {
 					agreed = true
 					break
@@ -505,3 +541,6 @@ func jsonDecoder(b []byte) *json.Decoder {
 	dec.UseNumber()
 	return dec
 }
+
+// c2err: the implementation's answer of a case (for its flattenErr).
+func c2err(c *Case) any { return get(c.Impl, "ok") }
